@@ -28,13 +28,43 @@ def _dump(n):
     return ast.dump(n, annotate_fields=True, include_attributes=False)
 
 
+def _alpha(fn):
+    """canonical names for the local variables of a function (in order of first binding), so that renaming a local in one
+    of two sibling bodies is not reported as a difference"""
+    params = {a.arg for a in fn.args.args + fn.args.kwonlyargs + fn.args.posonlyargs}
+    if fn.args.vararg:
+        params.add(fn.args.vararg.arg)
+    if fn.args.kwarg:
+        params.add(fn.args.kwarg.arg)
+    order = []
+
+    class Binders(ast.NodeVisitor):
+        def visit_Name(self, n):
+            if isinstance(n.ctx, ast.Store) and n.id not in params and n.id not in order:
+                order.append(n.id)
+
+        def visit_FunctionDef(self, n):
+            if n is fn:
+                self.generic_visit(n)
+
+        def visit_Lambda(self, n):
+            self.generic_visit(n)
+
+    Binders().visit(fn)
+    ren = {name: f"local{i}" for i, name in enumerate(order)}
+    for n in ast.walk(fn):
+        if isinstance(n, ast.Name) and n.id in ren:
+            n.id = ren[n.id]
+    return fn
+
+
 def transfer_relational(world):
     """EvoWorklist.transfer and FluentWorklist.transfer are the same program up to (a) the body of the deprecated
     `wash_scheme is None` branch and (b) assert vs raise ValueError for incompatible lengths."""
     out = []
     emi, _, evo = world.repo.find_function("robotools.evotools.worklist.EvoWorklist.transfer")
     fmi, _, flu = world.repo.find_function("robotools.fluenttools.worklist.FluentWorklist.transfer")
-    evo, flu = _strip(evo), _strip(flu)
+    evo, flu = _alpha(_strip(evo)), _alpha(_strip(flu))
     out.append(("C16/transfer/same-signature", _dump(evo.args) == _dump(flu.args), "parameter lists differ"))
     be, bf = list(evo.body), list(flu.body)
     i = j = 0
